@@ -36,6 +36,9 @@
 Module containing Fortran2008 Error_Stop_Stmt rule R856
 """
 
+import re
+
+from fparser.two import pattern_tools as pattern
 from fparser.two.Fortran2003 import Stop_Code
 from fparser.two.utils import StmtBase, WORDClsBase
 
@@ -49,6 +52,11 @@ class Error_Stop_Stmt(StmtBase, WORDClsBase):  # R856
 
     subclass_names = []
     use_names = ["Stop_Code"]
+
+    # Any amount of white space may separate the two keywords.
+    _keyword = pattern.Pattern(
+        "<error-stop>", r"^\s*ERROR\s+STOP\b", flags=re.I, value="ERROR STOP"
+    )
 
     @staticmethod
     def match(string):
@@ -65,4 +73,4 @@ class Error_Stop_Stmt(StmtBase, WORDClsBase):  # R856
             or NoneType
 
         """
-        return WORDClsBase.match("ERROR STOP", Stop_Code, string)
+        return WORDClsBase.match(Error_Stop_Stmt._keyword, Stop_Code, string)
